@@ -11,6 +11,7 @@ from ..core import rule, AnalysisError
 from ..engine import cfg as cfgmod, typestate
 from ..engine.facts import dotted, const, src, walk_func, enclosing_stmt, ancestors
 from . import skeletons as sk
+from ..engine import pattern as P
 from .common import calls, stmt_nodes, norm_successors, contains, raise_names
 from . import c16  # render-isolation is registered there for C13 as well
 
@@ -143,7 +144,7 @@ def skeleton_typestate(ctx):
         if isinstance(n_, ast.If) or isinstance(n_, ast.IfExp):
             pass
     for n_ in ast.walk(lx):
-        if isinstance(n_, ast.If) and 'keyword == "text"' in src(n_.test).replace("'", '"'):
+        if isinstance(n_, ast.If) and P.has(n_.test, "$k == 'text'"):
             app = [c for c in ast.walk(n_) if isinstance(c, ast.Call) and dotted(c.func) == "self.append_node"]
             rets = [r for r in ast.walk(n_) if isinstance(r, ast.Return)]
             closes = any("match_tag_end" in src(r.value) for r in rets if r.value is not None) or any(isinstance(c, ast.Call) and dotted(c.func) == "self.tag.pop" for c in ast.walk(n_))
